@@ -1,11 +1,18 @@
 """C02 — the parsed DOM is exactly what a well-formed source denotes, for every spelling of that source.
 
-Oracle (implementation): abstract sheets from c02_gen.gen_sheet are rendered canonically and in several random
-spellings; (1) every spelling must give the same DOM projection as the canonical rendering (metamorphic),
-(2) the projection must agree with what the AST says on its own (rule kinds in order, selector specificities,
-declaration names / component counts / priorities, import targets, namespace bindings, page selector and margin
-boxes, comments), (3) parseComments=False removes exactly the comments, validate=False changes nothing.
-The Lean side (Props/C02.lean) is stated over the structure kernel and added when that kernel is merged.
+model:    lean/CssVerif/Model/Struct.lean (K2, by C04), Model/AtRules.lean (setters of the at-rules that are opaque in K2),
+          Model/SheetSpec.lean (abstract sheet, spelled sheet, erase, render, DOM projection), Model/Normalize.lean
+theorems: lean/CssVerif/Props/C02.lean (T2.2 parse_render, spelling_invariance, T2.1 locality, T2.3 comments_off, …)
+tie:      (a) translator: MarginRule.margins -> Gen/C02Margins.lean
+          (b) `corr_struct`: abstract sheets (c02_gen) x structure-level spellings (c02_struct): render(spelled sheet) in Lean
+              = tokens of the real tokenizer on the text; projSheet(parseSheet(tokens)) = the abstract sheet; = the
+              projection of the real DOM (opaque token lists are given to the real sub-parsers)
+          (c) `corr_normalize`: helper.normalize on generated strings
+oracle:   independent of the model (`oracle`): abstract sheets rendered canonically and in several random text spellings;
+          (1) every spelling gives the DOM projection of the canonical rendering (metamorphic), (2) the projection agrees
+          with what the AST says on its own (rule kinds in order, specificities, declaration names / component counts /
+          priorities, import targets, namespace bindings, page selector and margin boxes, comments),
+          (3) parseComments=False removes exactly the comments, validate=False changes nothing.
 """
 import logging
 
@@ -248,21 +255,63 @@ class C02(Check):
     sources = ('cssutils/css/cssstylesheet.py', 'cssutils/css/cssstylerule.py', 'cssutils/css/selector.py',
                'cssutils/css/cssstyledeclaration.py', 'cssutils/css/property.py', 'cssutils/css/value.py',
                'cssutils/css/cssmediarule.py', 'cssutils/css/cssimportrule.py', 'cssutils/css/cssnamespacerule.py',
-               'cssutils/css/csspagerule.py', 'cssutils/css/marginrule.py', 'cssutils/tokenize2.py')
-    rule = ('abstract sheets (style, @media nested, @import, @namespace, @page with margin boxes, @font-face, @charset, '
-            'unknown at-rules, comments; CSS3 selectors; values of every component kind) x canonical rendering + N random '
-            'spellings (white space, comments, case of case-insensitive parts, quote style, escapes of name characters) x '
-            'parser options; non-trivial = distinct (abstract sheet, spelling) whose text differs from the canonical one')
+               'cssutils/css/csspagerule.py', 'cssutils/css/marginrule.py', 'cssutils/css/cssfontfacerule.py',
+               'cssutils/css/csscharsetrule.py', 'cssutils/css/cssunknownrule.py', 'cssutils/css/selectorlist.py',
+               'cssutils/util.py', 'cssutils/helper.py', 'cssutils/tokenize2.py')
+    rule = ('(1) abstract sheets of the documented grammar (c02_gen: style, @media nested, @import, @namespace, @page with '
+            'margin boxes, @font-face, @charset, unknown at-rules, comments; CSS3 selectors; values of every component kind '
+            'incl. calc()) x structure-level spellings of Model/SheetSpec.lean (c02_struct: S/COMMENT gaps at every gap of '
+            'every statement, case + simple escapes of at-keywords / property names / priority, quote style and url() form of '
+            'strings, stand-alone and optional semicolons) at 5 levels x inner spellings of c02_gen; (2) the same abstract '
+            'sheets x canonical rendering + N random text spellings x parser options (metamorphic oracle); (3) generated '
+            'strings for helper.normalize; (4) a corpus of past harness failures. non-trivial = distinct (abstract sheet, '
+            'spelling) whose text differs from the canonical one')
 
     trusted_base = (
-        'Model/Normalize.lean: hand model of cssutils.helper.normalize (simple-escape removal + ASCII lower-casing), tied '
-        'to the code by differential testing over generated strings each run',
-        'the structure-level clauses (rules / selectors / declarations recovered, comments-off, validate-off) are decided '
-        'on the implementation by exploration until the structure kernel theorem is merged',
+        'Model/Struct.lean (K2, by C04) + Model/AtRules.lean (setters of @import / @namespace / @font-face / @page / margin '
+        'box, @charset encoding) + Model/SheetSpec.lean (`projSheet`, `render`, `erase`): hand-written, tied to the code by '
+        'the correspondence of this run on well-formed sheets: render(spelled sheet) = tokens of the real tokenizer on the '
+        'text; projSheet(parseSheet(tokens)) = the abstract sheet = the projection of the real DOM',
+        'selectors, values and media query lists are opaque: every theorem holds for every oracle that accepts them as '
+        'written; in the correspondence the opaque token lists the model shows are given to the REAL Selector / '
+        'PropertyValue / MediaList, so a difference can only come from the structure level',
+        'MarginRule._setCssText is a ProdParser run; it is modelled on the fragment "@margin {S|COMMENT}* { tokens other '
+        'than at-keywords / INVALID / EOF } }" (Model/AtRules.lean marginBody), `unmodelled` outside of it',
+        'Model/Normalize.lean: hand model of cssutils.helper.normalize, differential testing over generated strings',
+        'the text level (T2.5: tokenize(text of a spelling) = render) is not proved; it is checked on every generated case',
     )
-    assumptions = ('str.lower() = ASCII lower-casing on the generated alphabets (non-ASCII characters used are caseless)',)
+    assumptions = ('str.lower() = ASCII lower-casing on the generated alphabets (non-ASCII characters used are caseless)',
+                   'token lists have EOF only as last token and single-character CHAR tokens (tokenizer invariant, checked '
+                   'by the driver on every request)',
+                   '`@charset`: whether the encoding names a codec stays with the oracle (O.atOk charsetSym)',
+                   'disabling validation changes nothing: decided on the implementation only (the model has no validate '
+                   'parameter)')
+
+    def translate(self, ctx):
+        """`MarginRule.margins` (the at-keywords that open a margin box) -> Gen/C02Margins.lean"""
+        import ast
+        import hashlib
+        import os
+        src = open(os.path.join(ctx.repo, 'cssutils/css/marginrule.py'), encoding='utf-8').read()
+        margins = None
+        for node in ast.walk(ast.parse(src)):
+            if isinstance(node, ast.ClassDef) and node.name == 'MarginRule':
+                for st in node.body:
+                    if isinstance(st, ast.Assign) and any(isinstance(t, ast.Name) and t.id == 'margins' for t in st.targets):
+                        margins = ast.literal_eval(st.value)
+        if not isinstance(margins, list) or not all(isinstance(m, str) for m in margins):
+            raise ValueError('MarginRule.margins: not a list of string literals')
+        h = hashlib.sha256(src.encode()).hexdigest()
+        rows = ['  [%s]%s  -- %s' % (', '.join('0x%X' % ord(c) for c in m), ',' if i < len(margins) - 1 else '', m)
+                for i, m in enumerate(margins)]
+        lines = ['-- GENERATED by tools/harness/c02.py from cssutils/css/marginrule.py (sha256 %s)' % h,
+                 '-- `MarginRule.margins`: the at-keywords that open a margin box inside @page',
+                 'namespace CssVerif.Gen.C02',
+                 'def margins : List (List Nat) := ['] + rows + [']', 'end CssVerif.Gen.C02', '']
+        return {'CssVerif/Gen/C02Margins.lean': '\n'.join(lines)}
 
     def run(self, ctx):
+        ctx.phase(self.run_corpus, ctx)
         ctx.phase(self.corr_normalize, ctx)
         ctx.phase(self.corr_struct, ctx)
         ctx.phase(self.oracle, ctx)
@@ -275,6 +324,30 @@ class C02(Check):
         ctx.phase(self.corr_struct, ctx)
         if not ctx.violations:
             ctx.phase(self.oracle, ctx)
+
+    # -- corpus: texts kept from past failures of the harness / model --------------------------------------
+    def run_corpus(self, ctx):
+        import json
+        import os
+        from lib.framework import enc
+        path = os.path.join(ctx.verif, 'tools', 'corpus', 'C02', 'sheets.json')
+        if not os.path.exists(path):
+            return
+        texts = [e['text'] for e in json.load(open(path))]
+        toklists = [S.tokenize(t) for t in texts]
+        lines = ['struct ' + (','.join('%s:%s' % (t[0], enc(t[1])) for t in toks) or '-') for toks in toklists]
+        out = ctx.driver(lines) if ctx.model_ok else [None] * len(lines)
+        for text, toks, o in zip(texts, toklists, out):
+            ctx.case(key=('corpus', text), nontrivial=True, kind='corpus', sample={'text': text})
+            if o is None:
+                continue
+            real = real_struct(text)
+            if not o.startswith('['):
+                ctx.disagree('projSheet(parseSheet tokens)/corpus', {'text': text}, real, o[:300])
+                continue
+            mp = model_dom(json.loads(o), toks)
+            if mp != real and drop_rejected_margin_decls(mp) != real:
+                ctx.disagree('projSheet(parseSheet tokens)/corpus', {'text': text}, first_diff(real, mp), None)
 
     # -- structure level: spelled sheets --------------------------------------------------------------
     def corr_struct(self, ctx):
